@@ -1559,9 +1559,20 @@ class HealSparseMap(object):
                     raise ValueError("weights must be a floating-point map.")
                 bad_map = ((weights.nside_sparse != self.nside_sparse) or
                            (weights.nside_coverage != self.nside_coverage) or
-                           (not np.array_equal(weights.valid_pixels, self.valid_pixels)))
+                           (not np.array_equal(np.sort(weights.valid_pixels),
+                                               np.sort(self.valid_pixels))))
                 if bad_map:
                     raise ValueError('weights dimensions must be the same as this map.')
+
+                if not np.array_equal(weights._cov_map[:], self._cov_map[:]):
+                    # The weights have the same valid pixels but their blocks are
+                    # stored in a different order; re-house them in the order of
+                    # this map.
+                    wgt_valid = weights.valid_pixels
+                    _weights = HealSparseMap.make_empty_like(weights,
+                                                             cov_pixels=self._cov_map._block_to_cov_index)
+                    _weights[wgt_valid] = weights[wgt_valid]
+                    weights = _weights
 
                 weight_values = weights._sparse_map.copy()
                 # Set to zero weight those pixels that are not observed
